@@ -243,8 +243,8 @@ func closeInstances(tier string) []Instance {
 
 func init() {
 	register(&Check{ID: "C12",
-		Rule: "9 in-flight call variants with never-ending contexts (optionally two calls) x send buffer {0,1,2} x node state {connected, down at creation, crashed with the receiver in back-off, blocking dial timed out at creation and the server came up later} x handler {never answers, answers} x 1 or 2 concurrent Close calls as free-running threads placed by the explorer at every instant within the deviation bound (call queued, being written, awaiting replies), then a call of a rotating type issued after Close, then a further sequential Close; plus Close on a WithNoConnect manager; back-off timers are fired to a horizon before each oracle; oracle: no panic, every Close returns, every in-flight and post-Close call returns (with an error where the API has one), no client library goroutine is alive and every connection is closed at the end; an outcome is (instance, completion summary)",
-		Gen:  closeInstances,
+		Rule:        "9 in-flight call variants with never-ending contexts (optionally two calls) x send buffer {0,1,2} x node state {connected, down at creation, crashed with the receiver in back-off, blocking dial timed out at creation and the server came up later} x handler {never answers, answers} x 1 or 2 concurrent Close calls as free-running threads placed by the explorer at every instant within the deviation bound (call queued, being written, awaiting replies), then a call of a rotating type issued after Close, then a further sequential Close; plus Close on a WithNoConnect manager; back-off timers are fired to a horizon before each oracle; oracle: no panic, every Close returns, every in-flight and post-Close call returns (with an error where the API has one), no client library goroutine is alive and every connection is closed at the end; an outcome is (instance, completion summary)",
+		Gen:         closeInstances,
 		Assumptions: []string{"'within bounded time' is decided in its eventual untimed form: after firing the armed library timers 4 rounds", "server-side goroutines (handlers that block forever by construction) are not counted as manager residue"},
 	})
 }
